@@ -115,6 +115,15 @@ func newDriver(order string) driver {
 		// decimal strings: lexicographic order differs from numeric order ("10" < "9")
 		sk := func(k int) string { return "k" + itoa(k) }
 		return &drv[string]{m: skiplist.New[string, int](ord.String), key: sk, name: sk, lt: func(a, b int) bool { return sk(a) < sk(b) }}
+	case "pct":
+		// string keys that contain a per cent sign (percentages, URL-escaped identifiers)
+		sk := func(k int) string {
+			if k%2 == 0 {
+				return itoa(k) + "%"
+			}
+			return "a%20b" + itoa(k)
+		}
+		return &drv[string]{m: skiplist.New[string, int](ord.String), key: sk, name: sk, lt: func(a, b int) bool { return sk(a) < sk(b) }}
 	case "ptr":
 		// keys are pointers to records ordered by a field: the trait dereferences its arguments, as traits over
 		// pointer keys do; it is only ever given keys that were put or asked for
@@ -355,7 +364,7 @@ func TestRun(t *testing.T) {
 		return
 	}
 	bigCases(t)
-	orders := []string{"int", "rev", "str", "mod", "ptr", "iface"}
+	orders := []string{"int", "rev", "str", "mod", "ptr", "iface", "pct"}
 	// ---- exhaustive: all histories over 3 keys
 	depth := common.Pick(5, 6)
 	hseeds := common.Pick(6, 20)
